@@ -99,4 +99,10 @@ CHECKS = {
         "assumptions": ["cookies are issued by the harness's conformant key-exchange server with the project's ServerCookie/EncryptWithNonce under the provider shared with the listener (i.e. exactly this project's 124-byte cookies)", "server key rotation between exchanges is covered by C12 (virtual time cannot reach goroutines blocked in network I/O)"],
         "timeout_quick": 600, "timeout_thorough": 2400,
     },
+    "C05": {
+        "pkg": "c05", "shards": 8,
+        "rule": "rapid-generated delivery scripts of mutated replies injected by the harness's server model into the real IP client (plain and NTS).",
+        "assumptions": ["datagrams from another port of the queried address are generated but not judged", "IP transport; SCION source/destination and packet-authenticator checks are part of C13"],
+        "timeout_quick": 600, "timeout_thorough": 2400,
+    },
 }
